@@ -280,10 +280,10 @@ not have any effect."""
             self._clauses.append([])
             return
 
-        self._clauses.append(data)
-
         if check:
             self._check_and_update(data)
+
+        self._clauses.append(data)
 
     def add_clauses_from(self, clauses, check=True):
         """Add a sequence of clauses to the CNF
